@@ -1,15 +1,88 @@
 ---------------------------- MODULE IntegrityGen ----------------------------
-(* GEN for C39: a random walk over PithosMC (TLC -simulate, PithosGen's state-aware  *)
-(* argument choice) builds a storage state; at GenDepth calls the program is printed *)
+(* GEN for C39: a random walk over PithosMC (TLC -simulate, state-aware argument      *)
+(* choice) builds a storage state; at GenDepth calls the program is printed *)
 (* together with NCases corruption cases per stack chosen over the PHYSICAL PARTS of *)
 (* the model state reached: each part of AllParts(S, stack) is damaged with probability *)
 (* CorrNum/CorrDen by a random applicable kind.  Cases 1-4 of every program are       *)
 (* directed: one part (preferably shared by several current objects), nothing, the   *)
 (* last part of a multi-part object, a part no current object references.            *)
 (* No expected results.                                                              *)
-EXTENDS Integrity, PithosGen
+EXTENDS Integrity, Json
 
-CONSTANTS NCases, CorrNum, CorrDen
+CONSTANTS GenDepth, NCases, CorrNum, CorrDen
+
+\* ---------------------------------------------------------------- generator core
+\* Self-contained (PithosMC only): random, state-aware argument choice in the style of
+\* PithosGen.  Every call is built from a TEMPLATE taken from PithosMC's own alphabet
+\* Calls(..) for that operation, so it always has exactly the fields Apply expects; the fields
+\* named here are overridden, any other field keeps a value the configuration allows.
+R(s) == RandomElement(s)
+RW(q) == q[RandomElement(1..Len(q))]     \* weighted choice: q lists values with multiplicity
+GenFresh == InitState(Buckets, Keys, Deviations)
+TemplateOf(op) == IF \E x \in Calls(GenFresh) : x.op = op
+                  THEN CHOOSE x \in {y \in Calls(GenFresh) : y.op = op} : TRUE ELSE [op |-> op]
+\* constants: evaluated once
+TCreateBucket == TemplateOf("CreateBucket")
+TPutVersioning == TemplateOf("PutVersioning")
+TPutObject == TemplateOf("PutObject")
+TDeleteObject == TemplateOf("DeleteObject")
+TCopyObject == TemplateOf("CopyObject")
+TAppendObject == TemplateOf("AppendObject")
+TCreateUpload == TemplateOf("CreateUpload")
+TUploadPart == TemplateOf("UploadPart")
+TUploadPartCopy == TemplateOf("UploadPartCopy")
+TCompleteUpload == TemplateOf("CompleteUpload")
+TPutTagging == TemplateOf("PutTagging")
+TTransition == TemplateOf("Transition")
+
+\* state-aware pickers: mostly hit things that exist, sometimes things that do not
+Live(St) == {b \in Buckets : St.bver[b] # "Absent"}
+PB(St) == IF Live(St) # {} /\ R(1..10) # 1 THEN R(Live(St)) ELSE R(Buckets)
+KeysWith(St, b) == {k \in Keys : St.objs[b][k] # <<>>}
+PK(St, b) == IF KeysWith(St, b) # {} /\ R(1..4) # 1 THEN R(KeysWith(St, b)) ELSE R(Keys)
+PV(St, b, k) ==
+  LET vs == St.objs[b][k] IN
+  IF R(1..5) <= 2 THEN -1
+  ELSE IF vs # <<>> /\ R(1..8) # 1 THEN vs[R(1..Len(vs))].vid
+  ELSE R(0..St.nv)
+PU(St) == IF St.ups # <<>> /\ R(1..8) # 1 THEN St.ups[R(1..Len(St.ups))].uid ELSE R(Uids(St))
+
+RandCall(op, St) ==
+  LET b == PB(St)
+      k == PK(St, b)
+      sb == PB(St)
+      sk == PK(St, sb)
+      u == PU(St)
+      ub == IF UpIdx(St, u) # 0 /\ R(1..8) # 1 THEN St.ups[UpIdx(St, u)].b ELSE b
+      uk == IF UpIdx(St, u) # 0 /\ R(1..8) # 1 THEN St.ups[UpIdx(St, u)].k ELSE k
+  IN
+  CASE op = "CreateBucket"   -> [TCreateBucket EXCEPT !.b = R(Buckets)]
+    [] op = "PutVersioning"  -> [TPutVersioning EXCEPT !.b = b, !.status = R({"Enabled", "Suspended"})]
+    [] op = "PutObject"      -> [TPutObject EXCEPT !.b = b, !.k = R(Keys), !.blob = R(Blobs), !.ctype = R(CTypes),
+                                                   !.meta = R(MetaSets), !.tags = R(TagSets), !.class = R(Classes), !.cond = "none"]
+    [] op = "DeleteObject"   -> [TDeleteObject EXCEPT !.b = b, !.k = k, !.vid = PV(St, b, k), !.cond = "none"]
+    [] op = "CopyObject"     -> [TCopyObject EXCEPT !.sb = sb, !.sk = sk, !.svid = PV(St, sb, sk), !.b = b, !.k = R(Keys),
+                                                    !.mdir = R({"COPY", "REPLACE"}), !.tdir = R({"COPY", "REPLACE"}),
+                                                    !.ctype = R(CTypes), !.meta = R(MetaSets), !.tags = R(TagSets), !.class = R(Classes)]
+    [] op = "AppendObject"   -> [TAppendObject EXCEPT !.b = b, !.k = k, !.blob = R(Blobs),
+                                                      !.off = RW(<<"none", "none", "none", "match", "match", "mismatch">>)]
+    [] op = "CreateUpload"   -> [TCreateUpload EXCEPT !.b = b, !.k = R(Keys), !.ctype = R(CTypes), !.meta = R(MetaSets),
+                                                      !.tags = R(TagSets), !.class = R(Classes)]
+    [] op = "UploadPart"     -> [TUploadPart EXCEPT !.b = ub, !.k = uk, !.u = u, !.n = R(1..MaxParts), !.blob = R(Blobs)]
+    [] op = "UploadPartCopy" -> [TUploadPartCopy EXCEPT !.sb = sb, !.sk = sk, !.svid = PV(St, sb, sk), !.b = ub, !.k = uk,
+                                                        !.u = u, !.n = R(1..MaxParts)]
+    [] op = "CompleteUpload" -> [TCompleteUpload EXCEPT !.b = ub, !.k = uk, !.u = u, !.cond = "none",
+                                   !.manifest = RW(<<"none", "none", "all", "all", "all", "all", "missing", "reversed", "badetag", "extra">>)]
+    [] op = "PutTagging"     -> [TPutTagging EXCEPT !.b = b, !.k = k, !.vid = PV(St, b, k), !.tags = R(TagSets)]
+    [] op = "Transition"     -> [TTransition EXCEPT !.b = b, !.k = k, !.vid = PV(St, b, k), !.class = R(Classes \ {None}),
+                                                    !.cond = "none"]
+
+First == [TCreateBucket EXCEPT !.b = "b1"]
+GenInit == /\ S = Apply(GenFresh, First).s
+           /\ res = NoRes
+           /\ hist = <<First>>
+Succeeds(c) == Apply(S, c).r.err = ""
+\* ------------------------------------------------------------ end of generator core
 
 RandCorr(St, stack) ==
   LET P == AllParts(St, stack)
@@ -54,26 +127,23 @@ IOpWSel == SelectSeq(IOpW, LAMBDA o : o \in Ops)
 \* that has parts, add the next part to a pending upload, append to an existing object.
 UpsWithParts(St) == {i \in 1..Len(St.ups) : St.ups[i].parts # <<>> /\ \A j \in 1..Len(St.ups[i].parts) : St.ups[i].parts[j].n = j}
 CurObjs(St) == {o \in Buckets \X Keys : Exists(St, o[1]) /\ HasCurrent(St.objs[o[1]][o[2]])}
-WithFields(op, base) == LET t == CHOOSE c \in {x \in Calls(S) : x.op = op} : TRUE
-                        IN [f \in DOMAIN t |-> IF f \in DOMAIN base THEN base[f] ELSE t[f]]
 Directed(St) ==
   LET r == R(1..3) IN
   IF r = 1 /\ UpsWithParts(St) # {} /\ "CompleteUpload" \in Ops
   THEN LET u == St.ups[R(UpsWithParts(St))] IN
-       [op |-> "CompleteUpload", b |-> u.b, k |-> u.k, u |-> u.uid, manifest |-> "all", cond |-> "none"]
+       [TCompleteUpload EXCEPT !.b = u.b, !.k = u.k, !.u = u.uid, !.manifest = "all", !.cond = "none"]
   ELSE IF r = 2 /\ St.ups # <<>> /\ "UploadPart" \in Ops
   THEN LET u == St.ups[R(1..Len(St.ups))] IN
-       WithFields("UploadPart", [op |-> "UploadPart", b |-> u.b, k |-> u.k, u |-> u.uid,
-                                 n |-> IF Len(u.parts) < MaxParts THEN Len(u.parts) + 1 ELSE MaxParts, blob |-> R(Blobs)])
+       [TUploadPart EXCEPT !.b = u.b, !.k = u.k, !.u = u.uid,
+                           !.n = IF Len(u.parts) < MaxParts THEN Len(u.parts) + 1 ELSE MaxParts, !.blob = R(Blobs)]
   ELSE IF CurObjs(St) # {} /\ "AppendObject" \in Ops
   THEN \* to an existing object (one more part) or to any key of its bucket (a fresh key gives a
        \* one-part object with a composite ETag)
        LET o == R(CurObjs(St))
            k == IF R(1..2) = 1 THEN o[2] ELSE R(Keys) IN
-       WithFields("AppendObject", [op |-> "AppendObject", b |-> o[1], k |-> k, blob |-> R(Blobs), off |-> "none"])
+       [TAppendObject EXCEPT !.b = o[1], !.k = k, !.blob = R(Blobs), !.off = "none"]
   ELSE RandCall(RW(IOpWSel), St)
 \* up to three draws: prefer a call that succeeds in the model (failing calls still occur)
-Succeeds(c) == Apply(S, c).r.err = ""
 IGenNext == LET c1 == IF R(1..3) = 1 THEN Directed(S) ELSE RandCall(RW(IOpWSel), S)
                 c2 == RandCall(RW(IOpWSel), S)
                 c3 == RandCall(RW(IOpWSel), S)
